@@ -248,7 +248,7 @@ def cli_cases(res, drv, tier):
     from concurrent.futures import ThreadPoolExecutor
     slots = [("#app", payload(40, 1)), ("http://x/y?a=b", payload(17, 2)), ("z", b""), ("http://example.com/fw%20v1.bin", payload(9, 3)),
              ("file://a%2Fb.bin", payload(3, 4)), ("file://a/b.bin", payload(4, 5)), ("radio%2Bcore+x.bin", payload(5, 6)), ("100%", payload(6, 7)), ("é%C3%A9", payload(7, 8))]
-    cases = [("from_payloads", eb) for eb in (1, 4, 8, 10, 16, 100, 256, 4096)] + [("merge", eb) for eb in (1, 8, 10, 100)] + [("default", None)]
+    cases = [("from_payloads", eb) for eb in (1, 4, 8, 10, 16, 100, 256, 4096, "08", "016", "+4", "0100")] + [("merge", eb) for eb in (1, 8, 10, 100)] + [("default", None)]
     with tempfile.TemporaryDirectory(prefix="verif_c10cli_") as d:
         inputs = []
         for i, (u, pdata) in enumerate(slots):
@@ -276,7 +276,7 @@ def cli_cases(res, drv, tier):
     for (sub, eb), (rc, log, data) in zip(cases, outs):
         res.case(["cli-cache", sub, eb], nontrivial=True)
         res.count("cli:" + sub)
-        eff = 16 if eb is None else eb       # documented default erase-block size
+        eff = 16 if eb is None else int(eb)       # documented default erase-block size; the option is a plain decimal integer
         jslots = [[u, pdata.hex()] for u, pdata in slots]
         if rc != 0 or data is None:
             res.spec_failures.append({"cli": "cache_create " + sub, "eb": eb, "what": f"the command line failed (exit {rc})", "log": log[-300:]})
